@@ -96,6 +96,11 @@ def gen_world(rng):
     if rng.random() < 0.5:
         # annotated (method), but the first parameter is a type of an included namespace: it stays a function of this one
         funcs.append(dict(sub='attach_object', first=('!GObject', 1), nparams=2, ret=None, ann_method=True, foreign_method=True))
+    if rng.random() < 0.5:
+        # annotated (constructor), named after none of the namespace's types, returning a class of an included namespace
+        # (GObject *foo_create_default_object (void)): it stays a function of this namespace
+        funcs.append(dict(sub=rng.choice(['create_default_object', 'make_object', 'object_factory']), first=None, nparams=0,
+                          ret='!GObject', foreign_constructor=True))
     for sub in rng.sample(['http_init', 'http_set_proxy', 'mime_guess', 'http_get'], rng.randint(0, 2)):
         add(sub, None, 0, None)
     consts = [('FOO_MAJOR', 'MAJOR'), ('%s_MINOR' % barp.upper(), 'MINOR'), ('FOO_EXT_SCALE', 'EXT_SCALE'),
@@ -158,7 +163,7 @@ def build(world, S):
                 t = S.ptr(t)
             ps.append(S.param('self_', t))
             ps += [S.param('p%d' % i, S.td('gint')) for i in range(f['nparams'] - 1)]
-        ret = S.td('gint') if f['ret'] is None else S.ptr(S.td('Foo' + f['ret']))
+        ret = S.td('gint') if f['ret'] is None else S.ptr(S.td(f['ret'][1:] if f['ret'].startswith('!') else 'Foo' + f['ret']))
         syms.append(S.func(f.get('prefix', 'foo') + '_' + f['sub'], ret, ps, line=line))
         line += 1
     # symbols that must be left out
@@ -167,6 +172,8 @@ def build(world, S):
     syms.append(S.func('baz_unrelated', S.td('gint'), [], line=line + 3))
     world['comments'] = [('/**\n * %s: (method)\n * @self_: the object\n *\n * An annotated method.\n */' % sym_of(f), '/src/foo.c', 5000 + 10 * i)
                          for i, f in enumerate(world['funcs']) if f.get('ann_method')]
+    world['comments'] += [('/**\n * %s: (constructor)\n *\n * Returns: (transfer full): an object of the included namespace\n */' % sym_of(f),
+                           '/src/foo.c', 9000 + 10 * i) for i, f in enumerate(world['funcs']) if f.get('foreign_constructor')]
     return syms, ET.ElementTree(ET.fromstring(''.join(dump)))
 
 
@@ -185,7 +192,7 @@ def coq_world(i, world, obs, intro):
             first = '(Some (%s, %d%%nat))' % (cstr(f['first'][0]), f['first'][1])
         fcs.append('{| f4_func := {| fn_symbol := %s; fn_sub := %s; fn_first := %s; fn_nparams := %d%%nat; fn_ret := %s; '
                    'fn_ann_method := %s; fn_ann_constructor := false |}; f4_intro := %s; f4_obs := %s |}'
-                   % (cstr(sym_of(f)), cstr(f['sub']), first, f['nparams'], copt(f['ret'], cstr), cbool(bool(f.get('ann_method'))),
+                   % (cstr(sym_of(f)), cstr(f['sub']), first, f['nparams'], copt(None if (f['ret'] or '').startswith('!') else f['ret'], cstr), cbool(bool(f.get('ann_method'))),
                       cbool(intro.get(sym_of(f), True)),
                       clist(['(%s, %s, %s, %s)' % (cstr(a), cstr(b), cstr(c), copt(d, cstr)) for a, b, c, d in obs.get(sym_of(f), [])])))
     return '{| w4_id := %d; w4_types := %s; w4_funcs := %s |}' % (i, tys, clist(fcs))
@@ -248,6 +255,12 @@ def main(tier, seed):
                 if sorted(occ) != [('', 'function', f['sub'], None)]:
                     ck.failing_input('a function annotated (method) whose first parameter belongs to an included namespace is not described '
                                      'exactly once, as a function of this namespace', dict(case, symbol=cid), detail=occ)
+                continue
+            if f.get('foreign_constructor'):
+                if sorted(occ) != [('', 'function', f['sub'], None)]:
+                    ck.failing_input('a function annotated (constructor) that returns a type of an included namespace and carries the prefix of '
+                                     'none of this namespace\'s types is not described exactly once, as a function of this namespace',
+                                     dict(case, symbol=cid, declaration='/** %s: (constructor) */ GObject *%s (void);' % (cid, cid)), detail=occ)
                 continue
             if f.get('ann_method') and sorted(occ) != [(f['first'][0], 'method', f['sub'], None)]:
                 ck.failing_input('a function annotated (method) is not described exactly once, as a method of its first parameter\'s type under '
